@@ -34,3 +34,10 @@ def run(ctx):
         "which transfer relations count as 'expressible' follows DESIGN section 4 (iii); every other transformer is only required to contain the exact result, its precision is reported as information",
         "affine_dimension and is_bounded oracles are executable but not proved (Gaussian rank / recession cone)",
     ]
+
+
+def replay(ctx, path):
+    """bin/check C04 --replay <file>: re-execute the recorded history against the current tree and judge it again"""
+    ctx.ensure_ppl()
+    w.run_replay(ctx, "c04")
+    return 1 if ctx.violations else 0
